@@ -95,6 +95,8 @@ class EngineProp(Prop):
             return 'model: %s' % a[:200]
         body, fin = a.split(' || ')
         msteps = body.split(' | ') if obs['steps'] else []
+        if any(ms.strip() == 'OOD' for ms in msteps):
+            return None      # a raw message in a region the codec model does not cover (RESUME body etc.): not compared
         if len(msteps) != len(obs['steps']):
             return 'step count differs: impl %d model %d' % (len(obs['steps']), len(msteps))
         for idx, ((marker, outs), ms) in enumerate(zip(obs['steps'], msteps)):
